@@ -45,7 +45,7 @@ RULE = (
 ASSUMPTIONS = [
     "np.longdouble is 80-bit extended and every transform propagates it (checked at start-up and per instance)",
     "derivative tolerance: 1e-5 relative + 100 x estimated error of the numerical derivative; points whose tolerance would exceed 1e-3 of the natural scale are left undecided and counted",
-    "round-trip tolerance: 100 x (measured float64 rounding of forward and inverse evaluation mapped to x) ; decided only when below 1e-6 of the x scale",
+    "round-trip tolerance: 100 x (float64 rounding of forward and inverse evaluation measured against the long-double run of the same code at x and three neighbouring doubles, mapped to x); decided only when below 1e-6 of the x scale",
     "end points: finite images to 1e-10 relative; infinite images are inf (trim off) or exactly 1e16 (trim on)",
 ]
 LEVEL_TEXT = "Held on every explored instance of all 12 classes; interior points within 1e-3 of a singular end point and ill-conditioned evaluations are not decided."
@@ -242,6 +242,36 @@ def _flat(v, n):
     return v.reshape(-1)
 
 
+def _dist(x, bounds):
+    """Distance of x to the nearest finite bound (|x| when there is none)."""
+    lo, hi = bounds
+    d = np.abs(x) + 1e-300
+    if np.isfinite(lo):
+        d = np.abs(x - lo)
+    if np.isfinite(hi):
+        d = np.minimum(d, np.abs(hi - x)) if np.isfinite(lo) else np.abs(hi - x)
+    return d
+
+
+def _robust_noise(f, x, bounds, n):
+    """Float64 rounding noise of f around x: max of |f(float64) - f(long double)| over x and four points displaced by
+    +-1e-7, +-3e-7 of the distance to the nearest bound (same conditioning, different rounding pattern).
+    One sample can be 'lucky' (1 - t within 1e-20 of a double: float64 and long double then agree to 1e-25 although both
+    are off by cond*eps_ld - seen once in 1.2e6 points); five different rounding patterns are not."""
+    out = np.zeros(n)
+    d = _dist(x, bounds)
+    with np.errstate(all="ignore"):
+        for s in (0.0, 1e-7, -1e-7, 3e-7, -3e-7):
+            xx = x + s * d
+            a = _flat(f(xx), n)
+            b = np.asarray(f(xx.astype(nd.LD)))
+            b = np.full(n, b, dtype=nd.LD) if b.ndim == 0 else b.reshape(-1)
+            e = np.abs(a - b.astype(float))
+            e[~np.isfinite(e)] = np.inf
+            out = np.maximum(out, e)
+    return out
+
+
 def _f64_noise(method, x, lib64):
     """Measured float64 rounding error of a library method on this input: 10 x |method(float64 x) - method(long double x)|
     (same code, wider type).  It enters the tolerance because the property is about the formulas, not about the
@@ -325,15 +355,16 @@ def check_map(ctx, subject, hookcls, tf, x, fb, gb, frac, gfrac, xscale, chunk, 
     if "deriv" in libd:
         ctx.check("monotone", subject + ":deriv-sign", bool(np.all(np.sign(libd["deriv"]) == direction)), sig="deriv-sign-vs-direction", detail={"args": args_note})
 
+    fwd_abs = _robust_noise(F, x, fb, n)  # float64 rounding noise of the forward evaluation (absolute, in r)
+
     # ---------------- round trip
     with ctx.guard("roundtrip", subject):
         xb = _flat(G(r), n)
     if "xb" in locals():
         with np.errstate(all="ignore"):
             d1 = np.abs(est[0])
-            xl = np.asarray(G(r.astype(nd.LD))).reshape(-1)
-            fwd_noise = np.abs(r - rl.astype(float)) / d1
-            inv_noise = np.abs(xb - xl.astype(float))
+            fwd_noise = fwd_abs / d1
+            inv_noise = _robust_noise(G, r, gb, n)
             e64 = np.finfo(float).eps
             tol_rt = 100 * (e64 * (np.abs(x) + np.abs(r) / d1) + fwd_noise + inv_noise) + 1e-13 * xscale
             dec = np.isfinite(tol_rt) & (tol_rt <= 1e-6 * xscale) & (100 * err[0] <= 0.1 * d1)
@@ -372,7 +403,9 @@ def check_map(ctx, subject, hookcls, tf, x, fb, gb, frac, gfrac, xscale, chunk, 
                 (6 * np.abs(d2) * e2 + np.abs(d3) * e1 + np.abs(d1) * e3) / np.abs(d1) ** 5 + 5 * np.abs(ift[2]) * e1 / np.abs(d1),
             ]
         )
-        dx_round = (np.abs(r - rl.astype(float))[vi] + np.finfo(float).eps * np.abs(rv)) / np.abs(d1)
+        # displacement of the argument: actual float64 rounding of the image + the long-double image's own error
+        # (~ float64 noise / 2048, from the robust estimate) + one ulp
+        dx_round = (np.abs(r - rl.astype(float))[vi] + 0.01 * fwd_abs[vi] + np.finfo(float).eps * np.abs(rv)) / np.abs(d1)
         scale_f = _scales(ift, np.abs(d1) * ell[vi])  # ell in r units ~ |r'| * ell_x
         tol_f = TOL_REL * np.abs(ift) + 100 * ift_err + 1e-9 * scale_f + 50 * (dx_round / ell[vi]) * scale_f
     for o, name in enumerate(("deriv_inverse", "deriv2_inverse", "deriv3_inverse")):
